@@ -73,13 +73,20 @@ def gen_block(rng):
         if idx == 9 and rng.random() < 0.8:
             # User-Agent variants
             ln = 128
-            v = rng.choice(["short", "endnul", "cont", "cont0", "never"])
+            v = rng.choice(["short", "endnul", "cont", "cont0", "never", "innernul"])
             body = bytes(rng.randrange(1, 256) for _ in range(128))
             if v == "short":
                 k = rng.randrange(0, 127)
                 val = body[:k] + b"\0" * (128 - k)
             elif v == "endnul":
                 val = body[:127] + b"\0"
+            elif v == "innernul":
+                # the string ends inside the field (not over-long); the rest of the field is not NUL-filled up to its last
+                # byte, and whatever follows the field does not start with a NUL either
+                k = rng.randrange(0, 127)
+                val = body[:k] + b"\0" + body[k + 1 :]
+                extra = bytes(rng.randrange(1, 256) for _ in range(rng.choice([0, 0, 1, 5]))) if rng.random() < 0.3 else b""
+                meta["next_nonzero"] = True
             elif v == "cont":
                 val = body
                 # continuation lengths around every plausible chunk size, not just short ones
@@ -96,6 +103,8 @@ def gen_block(rng):
     out = bytearray()
     for i, (idx, typ, val, extra, v) in enumerate(recs):
         out += tlv.S(idx, typ, val) + extra
+        if v == "innernul" and not extra:
+            out += tlv.S(rng.choice([0x4142, 256, 65535, 0x0100 + idx]), rng.choice([1, 3]), rng.randbytes(2))  # next record starts with a non-NUL byte
         if v == "never" and i != len(recs) - 1:
             # 'never' only makes sense as the last record; otherwise the next record header ends it at its first NUL
             pass
